@@ -15,6 +15,7 @@ excluding hypothesis `valid` (no balanced concat) and are named `…_partial`.  
 stacks by `layer_composition_subset` / `layer_composition_wrap` (any inner stack) together with `balanced_round_robin`.
 -/
 import KDVerif.Lemmas.IndexMaps
+import KDVerif.Lemmas.C02Extra
 
 namespace KDVerif.C02
 open KDVerif.IndexMaps
@@ -184,5 +185,260 @@ theorem introspection_linear (ls : List Layer) (id n : Nat) (kind : Kind) :
 
 example : allWrappers (ofChain [.wrap 11 5, .concat1 false, .subset 12 1 [0, -1], .wrap 13 5] (.base 4 3 .list)) = [(11, 5), (12, 1), (13, 5)] := by
   rfl
+
+/-! ## Additions: stacks with balanced concats end to end, exact bulk-path condition, containers, more introspection
+
+`specItem` (Model/C02Spec.lean) reads "item `k` of the composed dataset is item `map(k)` of the underlying dataset, `map` the
+composition of the layers' index maps" literally: one stand-alone index map per layer kind (`baseMap`, `subsetMap`, `concatMap`,
+`balancedMap` — none of them uses cumulative sizes, bisect or `len`'s exception plumbing) composed along the nesting.  `validB` is
+the set of stacks the real constructors accept; unlike `valid` it contains balanced concats (on top, below wrappers, below
+subsets — wherever `ConcatDataset.__init__` does not need their `len`).
+
+Still outside the model (stated here so that nobody reads more into the theorems): the dispatch on the *item name* in the
+`__getattr__` methods (`getitem_…` / `getall_…` / `getdim_…` prefixes, `dataset(s)`) — the model is parametric in the item name
+`x`, every `getitem_x` of a stack is `resolve`, every `getall_x` is `getall`; `collators`, `fused_operations`,
+`requires_propagate_ctx`, `worker_init_fn`; bulk accessors of stacks containing a balanced concat (known finding above).
+`getdim` / `allWrapperTypes` / `getallAsK` (Model/C02Spec.lean) are not yet run against the real code by a driver. -/
+
+/-- `validB` is exactly the domain of the property: the stacks whose construction succeeds (no other hypothesis is used by
+    `resolve_eq_specItem`) -/
+theorem validB_iff_constructible (d : DS) : validB d = true ↔ build d = .ok () :=
+  c02x_validB_iff_build d
+
+example : validB (.concat [.wrap 8 5 (.concat [.base 1 2 .list] true), .base 2 1 .list] false) = false ∧
+    build (.concat [.wrap 8 5 (.concat [.base 1 2 .list] true), .base 2 1 .list] false) = .error .assertion ∧
+    validB (.concat [.subset 7 1 (.concat [.base 1 2 .list] true) [3], .base 2 1 .list] true) = true := by decide
+
+/-- `valid` (the domain of the theorems above) is the part of `validB` without balanced concats and with in-range subset indices -/
+theorem validB_of_valid (d : DS) (hv : valid d = true) : validB d = true ∧ wfB d = true ∧ sized d = true ∧
+    size d = (flatten d).length :=
+  ⟨c02x_validB_of_valid d hv, c02x_wfB_of_valid d hv, c02x_sized_of_valid d hv, c02x_size_eq_flatten_length d hv⟩
+
+/-- **item `k` of the composed dataset is item `map(k)` of the underlying dataset, `map` = composition of the layers' index
+    maps** (clause 1 of the property, at full strength): for EVERY constructible nesting — balanced concats anywhere the constructor
+    allows them — and EVERY integer `k` (negative, out of range: then both sides are the same exception), the recursive code path
+    (`indices[k]`, torch's negative-index handling + `bisect_right` over `cumulative_sizes`, the balanced `idx % P` /
+    `int(idx / P) % len(part)`) returns what the spec returns.  Hypothesis: only that the constructors succeeded. -/
+theorem resolve_eq_specItem (d : DS) (hv : validB d = true) (k : Int) : resolve d k = specItem d k :=
+  c02x_resolve_eq_specItem d hv k
+
+/-- a stack outside `valid`: a subset over a concat whose first part is a subset over a balanced concat -/
+example :
+    let d : DS := .subset 9 1 (.concat [.subset 7 1 (.wrap 8 5 (.concat [.base 1 2 .list, .base 2 3 .list] true)) [5, -1, 4],
+                                         .base 3 2 .tensor] false) [-1, 0, 1, 2]
+    validB d = true ∧ wfB d = true ∧ valid d = false ∧
+      [specItem d 0, specItem d 1, specItem d 2, specItem d 3, specItem d (-4), specItem d 4] =
+        [.ok (3, 1), .ok (2, 2), .ok (2, 0), .ok (1, 0), .ok (3, 1), .error .index] := by decide
+
+/-- the spec's three interesting layer maps in closed form, so that `specItem` can be read without reading `rowPos`:
+    * plain concat: `concatMap sizes k = (j, i)` iff `k` is a valid index of the whole (`-total ≤ k < total`), `i` is a position
+      inside part `j`, and `k` normalised (negative counts from the end) is (total size of the parts before `j`) + `i`;
+      `k < -total` is a `ValueError`, `k ≥ total` an `IndexError`;
+    * balanced concat, `k = m·P + j ≥ 0`: part `j`, item `m mod size(part j)` (round-robin; an exhausted part starts over);
+    * balanced concat, `k = -(q·P + r) ≤ 0`: part `(P - r) mod P`, item `(-q) mod size` (Python `%`) — negative indices are not
+      rejected and do not "count from the end" (a balanced concat has no end): `int(idx / P)` truncates towards zero, so
+      `-1, …, -(P-1)` give item 0 of parts `P-1, …, 1` and round `-q` repeats round `size - q`. -/
+theorem layer_maps_closed_form (szs : List Nat) :
+    (∀ (k : Int) (j : Nat) (i : Int), concatMap szs k = .ok (j, i) ↔
+      (-(sumNat szs : Int) ≤ k ∧ k < sumNat szs) ∧ j < szs.length ∧ (0 ≤ i ∧ i < (szs.getD j 0 : Nat)) ∧
+        norm (sumNat szs) k = (sumNat (szs.take j) : Nat) + i) ∧
+    (∀ k : Int, k < -(sumNat szs : Int) → concatMap szs k = .error .value) ∧
+    (∀ k : Int, (sumNat szs : Int) ≤ k → concatMap szs k = .error .index) ∧
+    (∀ m j L : Nat, szs[j]? = some L → 0 < L →
+      balancedMap szs ((m * szs.length + j : Nat) : Int) = .ok (j, ((m % L : Nat) : Int))) ∧
+    (∀ q r L : Nat, r < szs.length → szs[(szs.length - r) % szs.length]? = some L → 0 < L →
+      balancedMap szs (-((q * szs.length + r : Nat) : Int)) = .ok ((szs.length - r) % szs.length, (-(q : Int)) % (L : Int))) :=
+  ⟨c02x_concatMap_ok_iff szs, c02x_concatMap_low szs, c02x_concatMap_high szs,
+    fun m j L h1 h2 => c02x_balancedMap_nonneg szs m j L h1 h2,
+    fun q r L h0 h1 h2 => c02x_balancedMap_neg szs q r L h0 h1 h2⟩
+
+example : concatMap [2, 0, 3] (-1) = .ok (2, 2) ∧ concatMap [2, 0, 3] 2 = .ok (2, 0) ∧ balancedMap [2, 3] 5 = .ok (1, 2) ∧
+    balancedMap [2, 3] (-1) = .ok (1, 0) ∧ balancedMap [2, 3] (-2) = .ok (0, 1) := by decide
+
+/-- **`len` equals the size of the map — and is refused exactly for stacks without an end** (clause "len equals the size of the
+    map" on the full constructible domain): `size` is the spec's size (`indices` length, sum of the parts); a balanced concat, also
+    seen through non-remapping wrappers, raises the `assert not self.balanced_sampling` -/
+theorem len_eq_size (d : DS) (hv : validB d = true) :
+    len d = if sized d = true then .ok (size d) else .error .assertion := by
+  cases hs : sized d with
+  | true => simp [c02x_len_eq_size d hv hs]
+  | false => simp [c02x_len_unsized d hs]
+
+example : len (.wrap 8 5 (.concat [.base 1 2 .list, .base 2 3 .list] true)) = .error .assertion ∧
+    len (.subset 7 1 (.wrap 8 5 (.concat [.base 1 2 .list, .base 2 3 .list] true)) [5, -1, 4]) = .ok 3 := by decide
+
+/-- **every valid index addresses a sample (never raises), balanced concats included**: on a well-formed stack (`wfB`:
+    constructible, subset indices over a *sized* layer in range — over a balanced concat any integer —, balanced parts non-empty)
+    every `-size ≤ k < size`, and for a stack without length every integer `k`, yields a sample, the spec's one -/
+theorem access_succeeds (d : DS) (hw : wfB d = true) (k : Int)
+    (hk : sized d = true → -(size d : Int) ≤ k ∧ k < size d) : ∃ x, specItem d k = .ok x ∧ resolve d k = .ok x := by
+  obtain ⟨x, hx⟩ := c02x_specItem_total d hw k hk
+  exact ⟨x, hx, by rw [resolve_eq_specItem d (c02x_validB_of_wfB d hw) k, hx]⟩
+
+example : wfB (.concat [.subset 7 1 (.concat [.base 1 2 .list, .base 2 3 .list] true) [100, -7], .base 3 1 .list] true) = true ∧
+    resolve (.concat [.subset 7 1 (.concat [.base 1 2 .list, .base 2 3 .list] true) [100, -7], .base 3 1 .list] true) (-6)
+      = .ok (2, 0) := by decide
+
+/-- on the old domain `valid` the two specs coincide: the composition of the layer maps reads position `k` (negative from the
+    end) of the list `flatten` -/
+theorem specItem_eq_flatten (d : DS) (hv : valid d = true) (k : Int) (x : Sample) :
+    specItem d k = .ok x ↔ specGet? (flatten d) k = some x :=
+  c02x_specItem_iff_flatten d hv k x
+
+/-- **balanced sampling round-robins over the parts, for arbitrary parts** (extends `balanced_round_robin`: a part only has to be
+    constructible and sized, e.g. a subset over another balanced concat; no `valid`): global index `m·P + j` is item
+    `m mod size(part j)` of part `j` -/
+theorem balanced_round_robin_any_part (ds : List DS) (hv : validB (.concat ds true) = true) (m j : Nat) (part : DS)
+    (hpart : ds[j]? = some part) (hne : 0 < size part) :
+    resolve (.concat ds true) ((m * ds.length + j : Nat) : Int) = resolve part ((m % size part : Nat) : Int) := by
+  have hvp : validB part = true := by
+    simp only [validB, Bool.and_eq_true] at hv
+    exact (c02x_validBAll_iff ds).mp hv.2 part (List.mem_of_getElem? hpart)
+  have hL : (sizes ds)[j]? = some (size part) := by rw [c02x_sizes_getElem?, hpart]; rfl
+  have h := c02x_balancedMap_nonneg (sizes ds) m j (size part) hL hne
+  rw [c02x_sizes_length] at h
+  rw [resolve_eq_specItem _ hv, resolve_eq_specItem _ hvp]
+  simp only [specItem, ↓reduceIte, h, c02x_specItemAt_eq, hpart]
+
+/-- **negative indices of a balanced concat** (the real code accepts them): `-(q·P + r)`, `0 ≤ r < P`, is item `(-q) mod size`
+    (Python `%`) of part `(P - r) mod P` -/
+theorem balanced_negative_index (ds : List DS) (hv : validB (.concat ds true) = true) (q r : Nat) (hr : r < ds.length) (part : DS)
+    (hpart : ds[(ds.length - r) % ds.length]? = some part) (hne : 0 < size part) :
+    resolve (.concat ds true) (-((q * ds.length + r : Nat) : Int)) = resolve part ((-(q : Int)) % (size part : Int)) := by
+  have hvp : validB part = true := by
+    simp only [validB, Bool.and_eq_true] at hv
+    exact (c02x_validBAll_iff ds).mp hv.2 part (List.mem_of_getElem? hpart)
+  have hL : (sizes ds)[((sizes ds).length - r) % (sizes ds).length]? = some (size part) := by
+    rw [c02x_sizes_length, c02x_sizes_getElem?, hpart]; rfl
+  have h := c02x_balancedMap_neg (sizes ds) q r (size part) (by rw [c02x_sizes_length]; exact hr) hL hne
+  rw [c02x_sizes_length] at h
+  rw [resolve_eq_specItem _ hv, resolve_eq_specItem _ hvp]
+  simp only [specItem, ↓reduceIte, h, c02x_specItemAt_eq, hpart]
+
+example : resolve (.concat [.base 1 2 .list, .base 3 3 .list] true) (-1) = .ok (3, 0) ∧
+    resolve (.concat [.base 1 2 .list, .base 3 3 .list] true) (-2) = .ok (1, 1) ∧
+    resolve (.concat [.base 1 2 .list, .base 3 3 .list] true) (-3) = .ok (3, 2) := by decide
+
+/-- **a balanced concat below subset / wrapper layers**: the layers above compose to the index map `c02x_chainMap ls` (each subset
+    layer: `indices[·]` with Python indexing, each wrapper: identity); where that map sends `k` to round `m`, position `j`, the stack
+    yields item `m mod size(part j)` of part `j`; where a layer above rejects `k`, the stack raises that exception -/
+theorem balanced_round_robin_below_layers (ls : List Layer) (hl : c02x_noConcat ls = true) (ds : List DS)
+    (hv : validB (.concat ds true) = true) (k : Int) :
+    (∀ (m j : Nat) (part : DS), c02x_chainMap ls k = .ok ((m * ds.length + j : Nat) : Int) → ds[j]? = some part → 0 < size part →
+      resolve (ofChain ls (.concat ds true)) k = resolve part ((m % size part : Nat) : Int)) ∧
+    (∀ e, c02x_chainMap ls k = .error e → resolve (ofChain ls (.concat ds true)) k = .error e) := by
+  refine ⟨fun m j part hk hpart hne => ?_, fun e he => c02x_resolve_ofChain_error ls hl _ k e he⟩
+  rw [c02x_resolve_ofChain_ok ls hl _ k _ hk]
+  exact balanced_round_robin_any_part ds hv m j part hpart hne
+
+/-- … and in the terms of `balanced_round_robin` (parts from the old domain): the sample is position `m mod len` of the part's list -/
+theorem balanced_round_robin_below_layers_flat (ls : List Layer) (hl : c02x_noConcat ls = true) (ds : List DS) (k : Int)
+    (m j : Nat) (part : DS) (hk : c02x_chainMap ls k = .ok ((m * ds.length + j : Nat) : Int)) (hpart : ds[j]? = some part)
+    (hv : valid part = true) (hne : 0 < (flatten part).length) :
+    ∃ x, (flatten part)[m % (flatten part).length]? = some x ∧ resolve (ofChain ls (.concat ds true)) k = .ok x := by
+  obtain ⟨x, hx, hr⟩ := balanced_round_robin ds m j part hpart hv hne
+  exact ⟨x, hx, by rw [c02x_resolve_ofChain_ok ls hl _ k _ hk, hr]⟩
+
+example : c02x_noConcat [.subset 7 1 [4, -1, 3], .wrap 8 5] = true ∧ c02x_chainMap [.subset 7 1 [4, -1, 3], .wrap 8 5] (-1) = .ok 3 ∧
+    resolve (ofChain [.subset 7 1 [4, -1, 3], .wrap 8 5] (.concat [.base 1 2 .list, .base 3 3 .list] true)) (-1) = .ok (3, 1) := by
+  decide
+
+/-- **exactly when the bulk path works** (clause "the bulk accessors agree element-wise with the per-sample accessors", old
+    domain `valid`, stack answers `hasattr(getall_x)`): `utils.getall` succeeds iff every concat part hands a *list* to
+    `KDConcatDataset._call_getall` (`bulkOk`); then it is the per-sample list; otherwise it raises that method's
+    `assert isinstance(dataset_result, list)` — it never returns a wrong list -/
+theorem bulk_path_succeeds_iff (d : DS) (hv : valid d = true) (hh : hasGetall d = true) :
+    ((∃ xs, getallUtil d = .ok xs) ↔ bulkOk d = true) ∧
+    (bulkOk d = true → getallUtil d = perSample d ∧ getallUtil d = .ok (flatten d)) ∧
+    (bulkOk d = false → getallUtil d = .error .assertion ∧ perSample d = .ok (flatten d)) := by
+  have h := c02x_getallUtil_eq d hv
+  cases hb : bulkOk d with
+  | true =>
+    simp only [hh, hb, Bool.true_eq_false, and_false, if_false] at h
+    refine ⟨⟨fun _ => rfl, fun _ => ⟨_, h⟩⟩, fun _ => ⟨(by rw [h, perSample_eq_flatten d hv]), h⟩, fun hc => (by cases hc)⟩
+  | false =>
+    simp only [hh, hb, and_self, if_true] at h
+    refine ⟨⟨fun ⟨xs, hx⟩ => (by rw [h] at hx; cases hx), fun hc => (by cases hc)⟩, fun hc => (by cases hc),
+      fun _ => ⟨h, perSample_eq_flatten d hv⟩⟩
+
+/-- complete description of `utils.getall` on the old domain, both paths -/
+theorem getallUtil_complete (d : DS) (hv : valid d = true) :
+    getallUtil d = if hasGetall d = true ∧ bulkOk d = false then .error .assertion else .ok (flatten d) :=
+  c02x_getallUtil_eq d hv
+
+/-- **the container kinds excluded by `bulkOk`: refutation of "bulk = per-sample" on a witness.**  A concat with a part whose
+    `getall_x()` returns a tensor (likewise an ndarray; also through a non-remapping wrapper) claims the bulk accessor
+    (`hasattr` is true), so `utils.getall` takes the fast path, which raises `AssertionError`, although the per-sample accessors
+    deliver every item.  Only a subset layer in between (which returns a list) repairs it. -/
+theorem bulk_raises_on_tensor_concat_part :
+    valid (.concat [.base 1 2 .tensor, .base 2 2 .list] false) = true ∧
+    hasGetall (.concat [.base 1 2 .tensor, .base 2 2 .list] false) = true ∧
+    getallUtil (.concat [.base 1 2 .tensor, .base 2 2 .list] false) = .error .assertion ∧
+    getallUtil (.concat [.base 1 2 .list, .wrap 5 5 (.base 2 2 .ndarray)] false) = .error .assertion ∧
+    perSample (.concat [.base 1 2 .tensor, .base 2 2 .list] false) = .ok [(1, 0), (1, 1), (2, 0), (2, 1)] ∧
+    getallUtil (.concat [.subset 7 1 (.base 1 2 .tensor) [0, 1], .base 2 2 .list] false) = .ok [(1, 0), (1, 1), (2, 0), (2, 1)] := by
+  decide
+
+/-- **`getall_as_list / getall_as_numpy / getall_as_tensor` with containers** (the element-only `getallAs` ignores its converter
+    argument; `getallAsK` models the converters' `isinstance` branches on a tagged container): for every stack and converter, the
+    converter returns the container kind it promises with exactly the elements of `utils.getall` — whether that came back as
+    list, tensor or ndarray —, it fails only where `utils.getall` fails (same exception), and the final
+    `raise NotImplementedError` of `getall_as_list` is unreachable -/
+theorem getall_as_containers (c : Conv) (d : DS) :
+    (∀ xs, getallAsK c d = .ok (c.target, xs) ↔ getallAs c d = .ok xs) ∧
+    (∀ r, getallAsK c d = .ok r → r.1 = c.target) ∧
+    (∀ e, getallAsK c d = .error e ↔ ∃ e', e = .inner e' ∧ getallAs c d = .error e') := by
+  refine ⟨c02x_getallAsK_ok_iff c d, fun r hr => ?_, c02x_getallAsK_error_iff c d⟩
+  cases hg : getallAs c d with
+  | error e =>
+    have := (c02x_getallAsK_error_iff c d (.inner e)).mpr ⟨e, rfl, hg⟩
+    rw [this] at hr; cases hr
+  | ok xs =>
+    have := (c02x_getallAsK_ok_iff c d xs).mpr hg
+    rw [this] at hr; cases hr; rfl
+
+/-- the three converters agree with the per-sample accessors, containers included (partial in the same way as
+    `getall_as_agree_partial`: `valid` excludes balanced concats) -/
+theorem getall_as_agree_containers_partial (c : Conv) (d : DS) (hv : valid d = true)
+    (hp : bulkOk d = true ∨ hasGetall d = false) : getallAsK c d = .ok (c.target, flatten d) :=
+  (c02x_getallAsK_ok_iff c d (flatten d)).mpr (getall_as_agree_partial c d hv hp)
+
+example : getallAsK .asList (.wrap 8 5 (.base 3 2 .tensor)) = .ok (.list, [(3, 0), (3, 1)]) ∧
+    getallUtilK (.wrap 8 5 (.base 3 2 .tensor)) = .ok (.tensor, [(3, 0), (3, 1)]) ∧
+    getallAsK .asNumpy (.subset 7 1 (.base 3 2 .absent) [1]) = .ok (.ndarray, [(3, 1)]) := by decide
+
+/-- **`all_wrapper_types`** is the list of the classes of `all_wrappers`, for EVERY nesting (concats delegate both to their first
+    part); on a linear chain: the classes of the chain's wrapper layers, outermost first -/
+theorem all_wrapper_types_eq (d : DS) : allWrapperTypes d = (allWrappers d).map (·.2) :=
+  c02x_allWrapperTypes_eq d
+
+theorem all_wrapper_types_linear (ls : List Layer) (id n : Nat) (kind : Kind) :
+    allWrapperTypes (ofChain ls (.base id n kind)) = (chainIdents ls).map (·.2) := by
+  rw [all_wrapper_types_eq, allWrappers_ofChain]
+
+/-- **shape / dim delegation through a linear chain**: `getshape_x` is an ordinary attribute (covered by `lookup` in
+    `introspection_linear`: outermost overriding layer, else the root's); `getdim_x()` — an alias that `KDDataset` / `KDWrapper`
+    resolve via `self.getshape_x()` and that subsets / concats pass inwards — returns the value of the outermost layer overriding
+    `getshape_x`, else the root's value (attribute `0` in the model's convention), else the `assert hasattr` fails.
+    Hypothesis `c02x_noSubsetOfType`: no *subset-family* layer overrides `getshape_x` (true of every class in the repo; see
+    `getdim_skips_subset_override` for what happens otherwise). -/
+theorem getdim_delegation (name : Nat) (ls : List Layer) (hl : c02x_noSubsetOfType name ls = true) (id n : Nat) (kind : Kind) :
+    getdim name (ofChain ls (.base id n kind)) =
+      match (((chainIdents ls).filter (fun p => p.2 = name)).map (·.1)).head? with
+      | some u => .ok u
+      | none => if name = 0 then .ok id else .error .assertion := by
+  rw [c02x_getdim_ofChain name ls hl, lookup_ofChain, wrappersOfType_ofChain]
+  cases (((chainIdents ls).filter (fun p => p.2 = name)).map (·.1)).head? with
+  | some u => rfl
+  | none => by_cases h : name = 0 <;> simp [h]
+
+/-- without the hypothesis: a subset-family layer that defined `getshape_x` itself would be skipped by `getdim_x()` (the subset
+    forwards `getdim_x`, the alias is then evaluated from the layer below) — `getshape_x()[0]` and `getdim_x()` would differ -/
+theorem getdim_skips_subset_override :
+    lookup 0 (.subset 1 0 (.base 2 3 .list) [0]) = some 1 ∧ getdim 0 (.subset 1 0 (.base 2 3 .list) [0]) = .ok 2 := by decide
+
+example : c02x_noSubsetOfType 0 [.wrap 11 5, .concat1 false, .subset 12 1 [0, -1], .wrap 13 0, .wrap 14 0] = true ∧
+    getdim 0 (ofChain [.wrap 11 5, .concat1 false, .subset 12 1 [0, -1], .wrap 13 0, .wrap 14 0] (.base 4 3 .list)) = .ok 13 ∧
+    getdim 0 (ofChain [.wrap 11 5, .concat1 false, .subset 12 1 [0, -1]] (.base 4 3 .list)) = .ok 4 := by decide
 
 end KDVerif.C02
